@@ -92,6 +92,9 @@ def run(chk):
     if guard is not chk.REFUSED:
         chk.borrow("C04.R6", c03.r3_eof, chk, mapb, guard)
     chk.borrow("C04.R6", c03.r4_torn_tail, chk, mapb, put)
+    # "a session that ends with an exception - raised ... by the flush at session exit - ... the next session ... proceeds": a write
+    # that failed during flush does not stay at the head of the queue (C02.R7)
+    chk.borrow("C04.R6", c02.r7_flush_progress, chk)
 
 
 def session(chk, f, kind, begin, end):
